@@ -487,7 +487,7 @@ func TestSolveProgramsF47(t *testing.T) {
 	rec := ev.Get(ID)
 	rec.SetRule(rule)
 	g := genProgCase([]string{"f47"})
-	rec.Check(t, "solve", ev.N(1200, 60000), func(rt *rapid.T) {
+	rec.Check(t, "solve", ev.N(8000, 120000), func(rt *rapid.T) {
 		c := g.Draw(rt, "case")
 		rec.Report(rt, "solve", c, run(c, rec))
 	})
@@ -497,7 +497,7 @@ func TestSolveProgramsCurves(t *testing.T) {
 	rec := ev.Get(ID)
 	rec.SetRule(rule)
 	g := genProgCase(curveFields)
-	rec.Check(t, "solve", ev.N(300, 20000), func(rt *rapid.T) {
+	rec.Check(t, "solve", ev.N(800, 30000), func(rt *rapid.T) {
 		c := g.Draw(rt, "case")
 		rec.Report(rt, "solve", c, run(c, rec))
 	})
